@@ -21,14 +21,21 @@ impl<R> ZipStreamReader<R> {
 }
 
 impl<R: Read> ZipStreamReader<R> {
-    fn parse_central_directory(&mut self) -> ZipResult<Option<ZipStreamFileMetadata>> {
+    fn parse_central_directory(
+        &mut self,
+        signature_consumed: bool,
+    ) -> ZipResult<Option<ZipStreamFileMetadata>> {
         // Give archive_offset and central_header_start dummy value 0, since
         // they are not used in the output.
         let archive_offset = 0;
         let central_header_start = 0;
 
         // Parse central header
-        let signature = self.0.read_u32::<LittleEndian>()?;
+        let signature = if signature_consumed {
+            spec::CENTRAL_DIRECTORY_HEADER_SIGNATURE
+        } else {
+            self.0.read_u32::<LittleEndian>()?
+        };
         if signature != spec::CENTRAL_DIRECTORY_HEADER_SIGNATURE {
             Ok(None)
         } else {
@@ -45,7 +52,11 @@ impl<R: Read> ZipStreamReader<R> {
             visitor.visit_file(&mut file)?;
         }
 
-        while let Some(metadata) = self.parse_central_directory()? {
+        // `read_zipfile_from_stream` returned `None` because it read the signature of the
+        // first central directory header, so that signature is already consumed.
+        let mut signature_consumed = true;
+        while let Some(metadata) = self.parse_central_directory(signature_consumed)? {
+            signature_consumed = false;
             visitor.visit_additional_metadata(&metadata)?;
         }
 
